@@ -144,6 +144,9 @@ pub fn corpus() -> Vec<(String, Vec<String>)> {
         ("flag-sensitive".into(), s(&["a1 _-", "a1 _-x", "Ab", "ab", "zzz9", "ü💩", "abab q"])),
         ("flag-sensitive-2".into(), s(&["I ♥♥♥ 36 and ٣ and 💩💩.", "x  y", "Äb", "äb", "1", "__"])),
         ("prefix-share".into(), s(&["abc", "abd", "abcde", "xbc"])),
+        // inputs on which flags interact: repetitions that exist only after case folding or after class conversion
+        ("flag-interactions-case".into(), s(&["aA", "AbaB", "ÄäÖö", "Σσ"])),
+        ("flag-interactions-class".into(), s(&["12", "1a2b", "a b\tc", "ab12", "-+"])),
         ("empty-middle".into(), s(&["x", "", "y"])),
         ("empty-first".into(), s(&["", "x"])),
         ("cr-inside".into(), s(&["x\ry", "z"])),
@@ -389,4 +392,4 @@ pub fn random_env(rng: &mut Rng) -> Vec<(String, String)> {
 
 /// File names a user's file may have; the name must not matter. (No leading/trailing blanks: `-f -` trims the
 /// path it reads, by design. No leading hyphen: clap would take it for an option.)
-pub const FILE_NAMES: &[&str] = &["cases.txt", "$HOME.txt", "~tilde.txt", "%41.txt", "back\\slash.txt", "with space.txt", "ünïcödé-日本.txt", "a,b;c.txt", "x=y&z.txt", "tab\tin name.txt", "quote'\"name.txt", ".hidden", "UPPER.TXT", "no-extension"];
+pub const FILE_NAMES: &[&str] = &["cases.txt", "$HOME.txt", "~tilde.txt", "%41.txt", "back\\slash.txt", "with space.txt", "ünïcödé-日本.txt", "a,b;c.txt", "x=y&z.txt", "tab\tin name.txt", "quote'\"name.txt", "ends-with-quote'", "\"quoted\"", "'single'", ".hidden", "UPPER.TXT", "no-extension"];
